@@ -22,8 +22,11 @@ TRUSTED = [
 ]
 ASSUMPTIONS = [
     "cost values are non-NaN binary64 floats; Python `<` on them equals PrimFloat.ltb (IEEE-754)",
-    "members of the population carry pairwise distinct ids (Individual.counter) and cost vectors of one common length; "
-    "a population that lists the same Individual object twice is outside the theorem",
+    "members of the population carry pairwise distinct ids (Individual.counter, shared by all Individual classes; checked on "
+    "every generated population: distinct objects that share an id are ranked as distinct members by the model) and cost vectors "
+    "of one common length; a population that lists the same Individual object twice, or an individual together with its own "
+    "reloaded copy (from_dict keeps the id), is outside the theorem",
+    "infinite cost values (+-inf, e.g. a penalty returned by the user's objective) are in scope: they are non-NaN floats",
 ]
 
 HEADER = ("From Artap Require Import Run.C02Run.\nFrom Coq Require Import List ZArith Floats.\nImport ListNotations.\n"
@@ -32,7 +35,7 @@ HEADER = ("From Artap Require Import Run.C02Run.\nFrom Coq Require Import List Z
 SMALL = [0.0, 1.0, 2.0, 3.0]
 HALVES = [0.0, 0.5, 1.0, 1.5, 2.0, 2.5, 3.0]
 WIDE = [0.0, -0.0, 1.0, -1.0, 2.0, 1.0 + 2 ** -52, 1.0 - 2 ** -53, 1e300, -1e300, 5e-324, 1e-9, 0.1, 0.2,
-        0.30000000000000004, 0.3, 7.25, -7.25]
+        0.30000000000000004, 0.3, 7.25, -7.25, math.inf, -math.inf, math.inf, -math.inf]
 MARKERS = [True, False, 0, 1, 2, -1, -2]
 
 
@@ -124,6 +127,22 @@ def t_adjacent(rng, n, m):
     return out
 
 
+def t_shared_inf(rng, n, m):
+    """members that share +inf / -inf in some objectives (a penalty value returned by the user's objective) and differ
+    in the others: dominance is decided by the finite coordinates (inf <= inf, not inf - inf)"""
+    shared = [rng.choice([math.inf, -math.inf, math.inf, None]) for _ in range(m)]
+    if m >= 2 and all(v is not None for v in shared):
+        shared[rng.randrange(m)] = None
+    if all(v is None for v in shared):
+        shared[rng.randrange(m)] = rng.choice([math.inf, -math.inf])
+    out = []
+    for _ in range(n):
+        row = [v if v is not None and rng.random() < 0.85 else rng.choice(SMALL + [math.inf, -math.inf] if v is not None else SMALL)
+               for v in shared]
+        out.append(row)
+    return out
+
+
 def t_triangle(rng, n, m):
     """the shape of the suite's own test: (j, i+1-j), rank = sum"""
     out = []
@@ -138,7 +157,7 @@ def t_triangle(rng, n, m):
 
 TEMPLATES = [("chain", t_chain), ("antichain", t_antichain), ("duplicates", t_duplicates), ("all_equal", t_all_equal),
              ("layers", t_layers), ("grid", t_grid), ("grid", t_grid), ("wide", t_wide), ("adjacent", t_adjacent),
-             ("triangle", t_triangle)]
+             ("triangle", t_triangle), ("shared_inf", t_shared_inf)]
 
 
 def gen_markers(rng, n):
@@ -167,9 +186,94 @@ def gen_population(rng, nmax):
 
 
 # ----------------------------------------------------------------------------------------------
+# start-up scenarios, each in its own fresh interpreter: all id state of all Individual classes is in its initial state,
+# seeds / algorithm individuals / reloaded individuals are created block-wise exactly as a run does (no harness tricks)
+FRESH_SCRIPT = r"""
+import sys, json
+import artap.operators as ops
+from artap.individual import Individual
+from artap.algorithm_NSGAII import IndividualNSGAII
+from artap.algorithm_swarm import IndividualSwarm
+from artap.algorithm_genetic import IndividualEpsMOEA
+C = {"plain": Individual, "nsga2": IndividualNSGAII, "swarm": IndividualSwarm, "epsmoea": IndividualEpsMOEA}
+sel = ops.TournamentSelector([])
+out = []
+for P in json.load(sys.stdin):
+    objs = []
+    for cname, route, src in P["create"]:
+        if route == "copy":
+            x = objs[src].copy()
+        elif route == "from_dict":
+            x = Individual.from_dict(objs[src].to_dict()) if src is not None else Individual.from_dict(C[cname]([0.5, 0.5]).to_dict())
+        else:
+            x = C[cname]([0.5, 0.5])
+        objs.append(x)
+    inds = [objs[k] for k in P["order"]]
+    for x, row in zip(inds, P["members"]):
+        x.costs = list(row[:-1]); x.costs_signed = list(row)
+    fronts, real_cd, pos = [], ops.crowding_distance, {id(x): k for k, x in enumerate(inds)}
+    def rec_cd(front):
+        fronts.append([pos[id(x)] for x in front])
+        return real_cd(front)
+    ops.crowding_distance = rec_cd
+    err = None
+    try:
+        sel.fast_nondominated_sorting(inds)
+    except Exception as e:
+        err = repr(e)
+    ops.crowding_distance = real_cd
+    out.append({"raw": [x.id for x in inds], "classes": [type(x).__name__ for x in inds], "error": err,
+                "front": [x.features.get("front_number") for x in inds], "counter": [x.features.get("domination_counter") for x in inds],
+                "dominate": [list(x.features.get("dominate") or []) for x in inds], "fronts": fronts})
+print("C02FRESH" + json.dumps(out))
+"""
+
+
+def fresh_scenarios(rng, corpus):
+    """creation plans for the fresh interpreters: (create list, population order, members)"""
+    plans = []
+    shapes = [
+        # DoE seeds, then the algorithm's individuals, then designs read back from a store / archive
+        [("plain", 3), ("nsga2", 4), ("plain", 3)],
+        [("swarm", 3), ("plain", 3), ("epsmoea", 3), ("plain", 2)],
+        [("plain", 1), ("nsga2", 1), ("swarm", 1), ("epsmoea", 1)] * 3,
+        [("nsga2", 3), ("swarm", 3), ("epsmoea", 3), ("plain", 3)],
+    ]
+    for shape in shapes:
+        plan = []
+        for rep in range(3):                    # the first population of a process is the truly fresh one
+            create = [(c, "new", None) for c, k in shape for _ in range(k)]
+            n0 = len(create)
+            for src in rng.sample(range(n0), rng.choice([0, 2, 3])):   # copies / reloaded versions of members (each member
+                create.append((None, rng.choice(["copy", "from_dict"]), src))   # reloaded at most once: a reload keeps the id)
+            for _ in range(rng.choice([0, 1, 2])):
+                create.append((rng.choice(["plain", "nsga2", "swarm", "epsmoea"]), "from_dict", None))
+            # a reloaded individual keeps the id of its source: it REPLACES the source in the population
+            gone = {src for _, route, src in create if route == "from_dict" and src is not None}
+            order = [k for k in range(len(create)) if k not in gone]
+            n = len(order)
+            if rep:
+                rng.shuffle(order)
+            kind = rng.choice(["chain", "layers", "grid"])
+            if kind == "chain":                 # a chain: every collision of ids has a rank consequence
+                costs = [[float(k), float(k // 2)] for k in range(n)]
+            elif kind == "layers":
+                costs = t_layers(rng, n, 2)
+            else:
+                costs = t_grid(rng, n, 2)
+            mk = rng.choice([True, True, 0])
+            members = [list(c) + [mk if rng.random() < 0.9 else False] for c in costs]
+            plan.append({"create": create, "order": order, "members": members})
+        plans.append(plan)
+    return plans
+
+
 def run(ctx):
     import artap.operators as ops
     from artap.individual import Individual
+    from artap.algorithm_NSGAII import IndividualNSGAII
+    from artap.algorithm_swarm import IndividualSwarm
+    from artap.algorithm_genetic import IndividualEpsMOEA
     rng = ctx.rng
     n_pops = ctx.pick(330, 2600)
     nmax = ctx.pick(12, 40)
@@ -183,34 +287,136 @@ def run(ctx):
     cases, expected, meta = [], [], []
     stats = {"template": {}, "markers": {}, "size": {}, "objectives": {}, "max_rank": {}, "with_duplicates": 0,
              "with_domination": 0, "with_incomparable_pair": 0, "stale_features": 0, "scrambled_ids": 0,
-             "order_checks": 0}
+             "order_checks": 0, "classes": {}, "vectors": {}, "constructed_by": {}, "populations_with_two_or_more_classes": 0,
+             "id_collisions": 0}
 
     def bump(d, k):
         d[str(k)] = d.get(str(k), 0) + 1
 
-    def implementation(pop, ids_mode, stale):
+    # ---- construction of the members: every class artap ranks together, every route that makes an Individual ----------
+    CLASSES = {"plain": Individual, "nsga2": IndividualNSGAII, "swarm": IndividualSwarm, "epsmoea": IndividualEpsMOEA}
+    CNAMES = list(CLASSES)
+    step = [0]
+
+    made = {k: 0 for k in CLASSES}
+
+    def burn(skip=None):
+        """One construction step creates objects of EVERY class (rotating order; 1 to 3 per class, a bounded random
+        walk: no class ever leads the slowest one by more than 5 objects), so that the numbers of objects ever created
+        stay close for all classes without being equal: whatever id state the classes keep, members of different
+        classes draw their ids from overlapping regions - as in a run seeded from a DoE or merged with an archive, where
+        plain seeds and the algorithm's individuals are created alternately.  `skip`: a class of which the caller has
+        just created one object itself.  Returns the newest object per class name."""
+        step[0] += 1
+        if skip:
+            made[skip] += 1
+        out = {}
+        for k in range(4):
+            name = CNAMES[(k + step[0]) % 4]
+            if name == skip:
+                continue
+            lead = made[name] - min(made.values())
+            # at least one per class (the caller may want it); who is far ahead advances by one only: gaps stay <= 5
+            count = 1 if lead >= 4 else rng.choice([1, 2, 2, 3]) if lead == 0 else rng.choice([1, 1, 2, 3])
+            for _ in range(count):
+                out[name] = CLASSES[name]([0.0])
+                made[name] += 1
+        return out
+
+    def construct(cname, route, vector, inds):
+        if route == "copy_of_member" and inds:        # NSGA-II sorts offsprings + copies: original and copy together
+            src = rng.choice(inds)
+            x = src.copy()
+            burn(skip=next(k for k, c in CLASSES.items() if c is type(src)))
+            x.vector = list(vector)
+            return x
+        proto = burn()[cname]
+        proto.vector = list(vector)
+        if route == "copy":
+            x = proto.copy()
+            burn(skip=cname)
+        elif route == "from_dict":                     # what a reloaded data store / a second process hands over
+            x = Individual.from_dict(proto.to_dict())  # creates a plain Individual and overwrites its id
+            burn(skip="plain")
+        else:
+            x = proto
+        return x
+
+    def model_ids_of(raw, base):
+        seen, model_ids, fresh = set(), [], max(raw) - base + 1 if raw else 0
+        for i in raw:
+            if i in seen:
+                model_ids.append(fresh)
+                fresh += 1
+            else:
+                seen.add(i)
+                model_ids.append(i - base)
+        return model_ids, len(seen) < len(raw)
+
+    def implementation(pop, ids_mode, stale, cmode="plain", vmode="costs"):
         """Runs the real sorter on real Individuals; returns the observation (ids relative to the case)."""
-        inds = []
+        inds, classes, routes = [], [], []
+        one = rng.choice(CNAMES[1:])
+        gridv = [[rng.choice([0.0, 0.5, 1.0]) for _ in range(2)] for _ in range(3)]
         for (c, mk) in pop:
-            x = Individual([float(v) for v in c])
+            cname = {"plain": "plain", "one_class": one}.get(cmode) or rng.choice(CNAMES)
+            route = "new" if cmode == "plain" and rng.random() < 0.8 else rng.choice(["new", "new", "copy", "from_dict", "copy_of_member"])
+            vector = {"costs": [float(v) if math.isfinite(v) else 0.0 for v in c], "same": [0.5, 0.5]}.get(vmode) or rng.choice(gridv)
+            x = construct(cname, route, vector, inds)
             x.costs = list(c)
             x.costs_signed = list(c) + [mk]
             inds.append(x)
-        base = inds[0].id if inds else 0
+            classes.append(type(x).__name__)
+            routes.append(route)
+        raw = [x.id for x in inds]
+        base = min(raw) if raw else 0
         if ids_mode == "scrambled":        # ids need not grow with the position (populations are merged and re-sorted)
             new = rng.sample(range(base, base + 3 * len(inds) + 3), len(inds))
             for x, i in zip(inds, new):
                 x.id = i
-        rel = {x.id: x.id - base for x in inds}
+            raw = new
+        # ids handed to the model: the implementation's own ids (relative to the case) when they are pairwise distinct
+        # (the theorem's hypothesis, what Individual.counter provides).  Distinct objects sharing an id are NOT merged:
+        # the later object gets a fresh id on the model side, so the model ranks per object and every consequence of the
+        # collision (wrong counter decremented, dominate lists naming the wrong member) is a difference.
+        model_ids, collision = model_ids_of(raw, base)
         if stale == "presorted":           # features left by an earlier sort of the same objects in another order
             other = list(inds)
             rng.shuffle(other)
-            selector.fast_nondominated_sorting(other)
+            try:
+                selector.fast_nondominated_sorting(other)
+            except Exception:
+                pass                       # reported by the run proper below
+        elif stale == "reloaded":          # the population was sorted, written out and read back (data store, second process):
+            try:                           # NEW objects carrying the SAME ids and the features of the first sort
+                selector.fast_nondominated_sorting(inds)
+            except Exception:
+                pass
+            reloaded = []
+            for x in inds:
+                y = Individual.from_dict(x.to_dict())
+                burn(skip="plain")
+                y.id = x.id
+                reloaded.append(y)
+            inds = reloaded
+            classes = [type(x).__name__ for x in inds]
+        elif stale == "recosted":          # the same objects, same order, same selector: sorted once with OTHER costs
+            perm = list(range(len(inds)))  # (re-evaluation in place, changed signs, a noisy objective), then the real ones
+            rng.shuffle(perm)
+            for x, k in zip(inds, perm):
+                c, mk = pop[k]
+                x.costs, x.costs_signed = list(c), list(c) + [rng.choice([mk, pop[0][1]])]
+            try:
+                selector.fast_nondominated_sorting(inds)
+            except Exception:
+                pass
+            for x, (c, mk) in zip(inds, pop):
+                x.costs, x.costs_signed = list(c), list(c) + [mk]
         elif stale == "garbage":
             for x in inds:
                 x.features["domination_counter"] = rng.choice([1, 5, -2])
                 x.features["front_number"] = rng.choice([None, 1, 9])
-                x.features["dominate"] = [rng.choice(list(rel))]
+                x.features["dominate"] = [rng.choice(raw)]
         fronts = []
         real_cd = ops.crowding_distance
         pos = {id(x): k for k, x in enumerate(inds)}
@@ -223,18 +429,18 @@ def run(ctx):
             selector.fast_nondominated_sorting(inds)
         finally:
             ops.crowding_distance = real_cd
-        return {"ids": [rel[x.id] for x in inds],
+        return {"ids": model_ids, "raw_ids": [i - base for i in raw], "classes": classes, "routes": routes,
+                "id_collision": collision,
                 "front": [x.features["front_number"] for x in inds],
                 "counter": [x.features["domination_counter"] for x in inds],
-                "dominate": [[rel[i] for i in x.features["dominate"]] for x in inds],
+                "dominate": [[i - base for i in x.features["dominate"]] for x in inds],
                 "fronts": fronts}
 
-    def oracle(pop, obs, m):
-        """the property statement evaluated on the implementation's output alone"""
+    def oracle(pop, obs, m, inp0):
+        """the property statement evaluated on the implementation's output alone, per object (position), never by id"""
         ranks, doms = tb_ranks(pop)
         fr = obs["front"]
-        inp = {"population_costs_signed": [list(c) + [mk] for c, mk in pop], "observed_front_numbers": fr,
-               "required_front_numbers": ranks}
+        inp = dict(inp0, observed_front_numbers=fr, required_front_numbers=ranks)
         for i in range(len(pop)):
             if not isinstance(fr[i], int) or isinstance(fr[i], bool):
                 ctx.oracle_failures.append({"what": "individual %d is left without a front number (%r); its true Pareto rank is %d" % (i, fr[i], ranks[i]),
@@ -252,16 +458,28 @@ def run(ctx):
         assert fr == ranks
         return True
 
-    def add_case(pop, tname, mkind, ids_mode="real", stale="fresh"):
-        inp = {"population_costs_signed": [list(c) + [mk] for c, mk in pop], "ids": ids_mode, "stale_features": stale}
+    def add_case(pop, tname, mkind, ids_mode="real", stale="fresh", cmode="plain", vmode="costs", given=None):
+        inp = {"population_costs_signed": [list(c) + [mk] for c, mk in pop], "ids": ids_mode, "stale_features": stale,
+               "classes": cmode, "vectors": vmode}
         try:
-            obs = implementation(pop, ids_mode, stale)
+            if given is not None:          # observed in a fresh interpreter
+                inp.update(member_classes=given["classes"], member_ids=given["raw"], created=given["created"])
+                if given["error"]:
+                    raise RuntimeError(given["error"])
+                base = min(given["raw"])
+                model_ids, collision = model_ids_of(given["raw"], base)
+                obs = {"ids": model_ids, "raw_ids": [i - base for i in given["raw"]], "classes": given["classes"],
+                       "routes": [], "id_collision": collision, "front": given["front"], "counter": given["counter"],
+                       "dominate": [[i - base for i in l] for l in given["dominate"]], "fronts": given["fronts"]}
+            else:
+                obs = implementation(pop, ids_mode, stale, cmode, vmode)
+            inp.update(member_classes=obs["classes"], member_ids=obs["raw_ids"], constructed_by=obs["routes"])
         except Exception as e:      # the sorter must rank every population; a crash leaves everybody unranked
             ctx.count(None, nontrivial=False)
             ctx.oracle_failures.append({"what": "the sorter raised %r: no individual is ranked" % (e,), "input": inp,
                                         "match": {"kind": "raised", "case": {"template": tname, "n": len(pop)}}})
             return None
-        ok = oracle(pop, obs, {"template": tname, "n": len(pop)})
+        ok = oracle(pop, obs, {"template": tname, "n": len(pop)}, inp)
         try:
             case = ll([pl(nl(i), pl(ll(c, fl), zl(mk))) for i, (c, mk) in zip(obs["ids"], pop)])
             exp = "Some {| o_front := %s; o_counter := %s; o_dominate := %s; o_fronts := %s |}" % (
@@ -273,9 +491,13 @@ def run(ctx):
                                             "input": dict(inp, observed=obs), "match": {"kind": "range"}})
             ctx.count(None, nontrivial=False)
             return obs
-        m = {"template": tname, "markers": mkind, "ids": ids_mode, "stale_features": stale,
-             "population": [{"id": i, "costs_signed": list(c) + [mk]} for i, (c, mk) in zip(obs["ids"], pop)],
+        m = {"template": tname, "markers": mkind, "ids": ids_mode, "stale_features": stale, "classes": cmode, "vectors": vmode,
+             "population": [{"id": i, "class": k, "costs_signed": list(c) + [mk]}
+                            for i, k, (c, mk) in zip(obs["raw_ids"], obs["classes"], pop)],
              "observed": obs}
+        if obs["id_collision"]:
+            stats["id_collisions"] += 1
+            m["note"] = "distinct Individual objects of this population carry the same id (the model ranks per object)"
         cases.append(case)
         expected.append(exp)
         meta.append(m)
@@ -284,6 +506,12 @@ def run(ctx):
         ctx.count(key, nontrivial=n >= 2)
         bump(stats["template"], tname)
         bump(stats["markers"], mkind)
+        bump(stats["classes"], cmode)
+        bump(stats["vectors"], vmode)
+        for r in obs["routes"]:
+            bump(stats["constructed_by"], r)
+        if len(set(obs["classes"])) > 1:
+            stats["populations_with_two_or_more_classes"] += 1
         bump(stats["size"], n)
         bump(stats["objectives"], len(pop[0][0]) if pop else 0)
         if ok and n:
@@ -318,12 +546,29 @@ def run(ctx):
         [([0.0], T), ([-0.0], T), ([5e-324], T)],
         [([2.0, 2.0], T), ([0.0, 3.0], T), ([3.0, 0.0], T), ([1.0, 1.0], T), ([0.0, 0.0], T)],   # last one dominates all
     ]
+    import subprocess, sys, json
+    plans = fresh_scenarios(rng, corpus)
+    procs = []
+    for plan in plans:
+        pr = subprocess.Popen([sys.executable, "-W", "ignore", "-c", FRESH_SCRIPT], stdin=subprocess.PIPE, stdout=subprocess.PIPE,
+                              stderr=subprocess.PIPE, text=True)
+        pr.stdin.write(json.dumps(plan))
+        pr.stdin.close()
+        procs.append(pr)
+
+    # first of all, while no Individual has been created in this process yet (all id state in its initial state): seed
+    # designs and algorithm individuals created alternately, as a DoE-seeded run does right after start-up
     for pop in corpus:
-        for stale in ("fresh", "presorted", "garbage"):
+        if len(pop) >= 3:
+            add_case(pop, "corpus", "corpus", "real", "fresh", "mixed", "costs")
+    for pop in corpus:
+        for stale in ("fresh", "presorted", "garbage", "recosted", "reloaded"):
             if pop or stale == "fresh":
                 add_case(pop, "corpus", "corpus", "real", stale)
         if len(pop) >= 2:
             add_case(list(reversed(pop)), "corpus", "corpus", "scrambled", "fresh")
+            add_case(pop, "corpus", "corpus", "real", "fresh", "mixed", "same")
+            add_case(list(reversed(pop)), "corpus", "corpus", "real", "presorted", "mixed", "grid")
 
     for _ in range(n_pops):
         tname, mkind, pop = gen_population(rng, nmax)
@@ -336,8 +581,10 @@ def run(ctx):
                 order.reverse()
             shuffled = [pop[k] for k in order]
             obs = add_case(shuffled, tname, mkind,
-                           "scrambled" if rng.random() < 0.25 else "real",
-                           rng.choice(["fresh", "fresh", "presorted", "garbage"]))
+                           "scrambled" if rng.random() < 0.2 else "real",
+                           rng.choice(["fresh", "fresh", "presorted", "garbage", "recosted", "reloaded"]),
+                           rng.choice(["plain", "one_class", "mixed", "mixed", "mixed"]),
+                           rng.choice(["costs", "costs", "same", "grid"]))
             if obs is None:
                 continue
             # "in every input order": the same member gets the same front number in every shuffle
@@ -349,13 +596,36 @@ def run(ctx):
                         "input": {"population_costs_signed": [list(c) + [mk] for c, mk in pop], "member": k, "order": order},
                         "match": {"kind": "order", "template": tname}})
 
+    stats["fresh_interpreter_populations"] = 0
+    for plan, pr in zip(plans, procs):
+        text = pr.stdout.read()
+        err = pr.stderr.read()
+        pr.wait()
+        lines = [l for l in text.splitlines() if l.startswith("C02FRESH")]
+        if not lines:
+            ctx.oracle_failures.append({"what": "a fresh interpreter could not build and sort a population of mixed Individual classes: %s" % err[-600:],
+                                        "input": {"plan": plan[0]}, "match": {"kind": "raised", "case": {"template": "fresh_interpreter"}}})
+            continue
+        for P, given in zip(plan, json.loads(lines[0][8:])):
+            given["created"] = [list(c) for c in P["create"]]
+            pop = [([float(v) for v in row[:-1]], row[-1]) for row in P["members"]]
+            add_case(pop, "fresh_interpreter", "uniform", "real", "fresh", "mixed", "same", given=given)
+            stats["fresh_interpreter_populations"] += 1
+
     ctx.coq_compare("c02", HEADER, "c02_case", "option c02_obs", "c02_run", "c02_obs_eqb", cases, expected, meta,
                     shard=ctx.pick(90, 160))
     ctx.rule = ("populations from templates (chain, anti-chain, duplicates, all-equal, stacked layers, value grids with ties, "
-                "wide magnitudes incl. -0.0/denormal/1e300, adjacent floats, the suite's triangle), 1..4 objectives, markers "
-                "uniform / mixed bool / mixed int from %r, each in %d input orders, with real or scrambled ids and fresh or stale "
-                "features; compared per individual: front_number, final domination_counter, dominate ids, and the fronts passed to "
-                "crowding_distance; non-trivial = at least two members; distinct = distinct ordered population") % (MARKERS, n_shuffles)
+                "wide magnitudes incl. -0.0/denormal/1e300/+-inf, members sharing an infinite objective, adjacent floats, the suite's "
+                "triangle), 1..4 objectives, markers uniform / mixed bool / mixed int from %r, each in %d input orders; members are "
+                "plain Individual / IndividualNSGAII / IndividualSwarm / IndividualEpsMOEA objects (one class or mixed, created "
+                "alternately), built by the constructor, copy() (also original and copy together), from_dict(to_dict()); design vectors "
+                "equal to the costs, all equal, or independent of the costs; real or scrambled ids (never renumbered: the model gets "
+                "the implementation's ids, distinct objects sharing an id stay distinct on the model side); fresh or stale features "
+                "(sorted before in another order, garbage, sorted before with other costs by the same selector, sorted-written-read "
+                "back as new objects with the same ids); %d start-up scenarios each in its own fresh interpreter (seeds, algorithm "
+                "individuals, reloaded designs created block-wise); compared per individual: front_number, final domination_counter, "
+                "dominate ids, and the fronts passed to crowding_distance; non-trivial = at least two members; distinct = distinct "
+                "ordered population") % (MARKERS, n_shuffles, len(plans))
     ctx.extra.update({"input_distribution": stats, "max_population_size": nmax})
 
 
@@ -378,15 +648,22 @@ def replay(ctx, data):
     import artap.operators as ops
     from artap.individual import Individual
     selector = ops.TournamentSelector([])
-    pops = [f["input"]["population_costs_signed"] for f in data.get("failing_inputs", []) if "population_costs_signed" in f.get("input", {})]
-    pops += [[x["costs_signed"] for x in m["case"]["population"]] for m in data.get("correspondence_mismatches", [])
+    from artap.algorithm_NSGAII import IndividualNSGAII
+    from artap.algorithm_swarm import IndividualSwarm
+    from artap.algorithm_genetic import IndividualEpsMOEA
+    by_name = {c.__name__: c for c in (Individual, IndividualNSGAII, IndividualSwarm, IndividualEpsMOEA)}
+    pops = [(f["input"]["population_costs_signed"], f["input"].get("member_classes"))
+            for f in data.get("failing_inputs", []) if "population_costs_signed" in f.get("input", {})]
+    pops += [([x["costs_signed"] for x in m["case"]["population"]], [x.get("class", "Individual") for x in m["case"]["population"]])
+             for m in data.get("correspondence_mismatches", [])
              if isinstance(m.get("case"), dict) and "population" in m["case"]]
     bad = 0
-    for rows in pops[:5]:
+    for rows, classes in pops[:5]:
         pop = [(r[:-1], r[-1]) for r in rows]
         inds = []
-        for c, mk in pop:
-            x = Individual([float(v) for v in c])
+        # members are rebuilt as objects of the recorded classes, in population order, with the ids the code gives them
+        for (c, mk), cname in zip(pop, classes or ["Individual"] * len(pop)):
+            x = by_name.get(cname, Individual)([0.5, 0.5])
             x.costs, x.costs_signed = list(c), list(c) + [mk]
             inds.append(x)
         try:
@@ -397,7 +674,8 @@ def replay(ctx, data):
         required, _ = tb_ranks(pop)
         case = ll([pl(nl(i), pl(ll(c, fl), zl(mk))) for i, (c, mk) in enumerate(pop)])
         model = ctx.coq_eval("c02_replay", HEADER, ["match c02_run %s with Some o => Some (o_front o) | None => None end" % case])[0]
-        print(json_line({"population_costs_signed": rows, "implementation": observed, "required": required, "model": model}))
+        print(json_line({"population_costs_signed": rows, "classes": [type(x).__name__ for x in inds], "ids": [x.id for x in inds],
+                         "implementation": observed, "required": required, "model": model}))
         bad += observed != required
     print("C02 replay: %d of %d stored inputs still violate the property" % (bad, len(pops[:5])))
     return 1 if bad else 0
